@@ -42,7 +42,10 @@ def run(ctx):
         ref = par.addObject(ch, nm)
         m = d.call('pkg_addobject', sx_str(par.folder), str(nb), 'None' if nm is None else '(Some %s)' % sx_str(nm))
         ctx.corr('addObject folder/reference', {'parent_folder': par.folder, 'kids_before': nb, 'name': nm}, [sx_to_pystr(m[0]), sx_to_pystr(m[1])], [ch.folder, ref])
-        data = h.save()
+        try: data = h.save()
+        except Exception as e:
+            ctx.oracle_cases += 1
+            ctx.violation('save-raised', {'history': C03.describe(h)}, repr(e)[:300], 'a package', {'exception': type(e).__name__}); continue
         PC.corr_package(ctx, h.root, data, 'C16')
         pk = P.read_package(data)
         case = {'history': C03.describe(h)}
